@@ -25,7 +25,7 @@ RULE = ("a case is a schema (secrets aes/xor/best, challenge, bytes, containers,
         "destination's bytes and existence are compared and the audit log must show no write-open of it; every "
         "successful save is compared with dumps() (deterministic states) and loaded back; non-trivial = >= 1 failing "
         "save judged with a pre-existing destination; distinct = distinct (schema, states, format, fault)")
-REQUIRED = ("fault:keyfile-again-bad", "fault:keyfile-again-rekey", "dest_form:rel", "dest_form:home", "resaves_after_foreign_change", "failing_saves_judged", "natural_failures_judged", "injected_failures_judged", "successful_saves_judged",
+REQUIRED = ("schema_grown_after_first_save", "states_with_python_objects:yaml", "states_with_python_objects:pickle", "fault:keyfile-again-bad", "fault:keyfile-again-rekey", "dest_form:rel", "dest_form:home", "resaves_after_foreign_change", "failing_saves_judged", "natural_failures_judged", "injected_failures_judged", "successful_saves_judged",
             "loaded_back_equal", "distinct_injection_lines", "fault:unencodable", "fault:keyfile", "fault:format",
             "fault:option", "fault:domain", "fault:keyfile-same-secret", "fault:rekey", "crash_points_judged")
 ASSUMPTIONS = ["atomicity of the write itself (a crash between open and the end of write) is not part of the property",
@@ -47,10 +47,17 @@ def generate(rng, ctx):
     t1 = roundtrip.state_tree(rng, schema, fmt, env)
     t2 = roundtrip.state_tree(rng, schema, fmt, env)
     t1.setdefault("sec0", "tk%016x" % rng.getrandbits(64))
+    if fmt in ("yaml", "pickle") and rng.random() < 0.4:
+        # the Python-native formats carry Python objects beyond plain data in untyped places
+        from ..jsonx import PYOBJ
+        import copy as _copy
+
+        obj = _copy.deepcopy(PYOBJ[rng.choice(sorted(PYOBJ))])
+        (t1 if rng.random() < 0.5 else t2)["extra0"] = rng.choice([obj, [1, obj], {"k": obj}])
     fault = weighted(rng, [(3, "none"), (2, "unencodable"), (2, "keyfile"), (1.5, "keyfile-same-secret"), (1.5, "rekey"), (1, "format"),
                            (1, "option"), (2, "domain")])
     return {"schema": schema, "fmt": fmt, "t1": t1, "t2": t2, "fault": fault, "r": rng.getrandbits(30),
-            "dest_form": rng.choice(["abs", "abs", "rel", "home"]),
+            "dest_form": rng.choice(["abs", "abs", "rel", "home"]), "grow": rng.random() < 0.4,
             "foreign": rng.choice(["none", "none", "garbage", "truncate", "delete", "other-config"]),
             "crash": rng.random() < (0.5 if ctx.tier == "thorough" else 0.3)}
 
@@ -126,6 +133,13 @@ def _run(case, ctx, res, cc, env, fmt, root, built, keypath, cfg, dest):
     except Exception:
         res.count("state_not_loadable")
         return
+    from ..jsonx import py_name as _pn
+
+    def _has_py(v):
+        return bool(_pn(v)) if not isinstance(v, (list, dict)) else any(_has_py(x) for x in (v.values() if isinstance(v, dict) else v))
+
+    if _has_py(case["t1"].get("extra0")) or _has_py(case["t2"].get("extra0")):
+        res.count("states_with_python_objects:" + fmt)
     # ---- first save: must succeed or leave no file behind
     ok = _judged_save(cc, ctx, res, cfg, built, root, dest, fmt, {}, log, keypath, "first")
     if ok is None:
@@ -156,6 +170,24 @@ def _run(case, ctx, res, cc, env, fmt, root, built, keypath, cfg, dest):
             return
         if not ok:
             res.count("resave_failed_naturally")
+            return
+    # ---- the schema grows after the configuration has been saved once (a plug-in registering its options late): the new
+    # field is part of every later save
+    if case.get("grow"):
+        try:
+            built.schema["late0"] = cc.IntField(default=1)
+            holder = root
+            subs = [ch for ch in root["fields"] if ch["kind"] == "schema"]
+            if subs and case["r"] % 3 == 0:
+                holder = subs[0]
+                built.schema[subs[0]["key"] + ".late1"] = cc.StringField(default="d")
+                holder["fields"].append({"kind": "field", "key": "late1", "family": "str", "params": {"default": "d"}})
+                cfg[subs[0]["key"] + ".late1"] = "set-late"
+            root["fields"].append({"kind": "field", "key": "late0", "family": "int", "params": {"default": 1}})
+            cfg.late0 = 4
+            res.count("schema_grown_after_first_save")
+        except Exception as exc:
+            res.viol("M-file", "late-field-raises", "adding a field to the schema after a save and setting it raised %r" % (exc,))
             return
     # ---- second state + natural fault
     try:
